@@ -26,20 +26,35 @@
     (vm)->ip >= (m)->functions[(vm)->current_fn].code_offset && \
     (uint64_t)(vm)->ip <= (uint64_t)(m)->functions[(vm)->current_fn].code_offset + (m)->functions[(vm)->current_fn].code_length )
 
-/* vm_release as seen by one VM step: needs a well-formed value; touches nothing but the
- * object's reference count (and the ghost release counter); frees the object exactly when the
- * count was 1.  The object's children are released recursively by the real function: in a step
- * harness they are leaves outside the step's footprint. */
+/* vm_release as seen by one VM step (contract; the real recursive function is put under this
+ * contract by C14.heap.release): needs a well-formed value; touches nothing but the object's
+ * reference count (and the ghost release counter); the object is freed exactly when the count was 1;
+ * count 0 = no effect.  The object's children are released recursively by the real function: in a
+ * step harness they are leaves outside the step's footprint.
+ *
+ * --dfcc on a step harness instruments every assignment of vm_core_execute against the harness's
+ * ~30 allocated objects (measured: 690 s and an internal unwinding failure), so the step harnesses
+ * use the contract in EXECUTABLE form instead (assert requires; perform the specified effect): the
+ * harness TU is compiled with -Dvm_release=vm_release_real, which renames the REAL definition in
+ * heap.c (and its recursive calls) and leaves it intact; vm.c's calls (after #undef in the harness)
+ * resolve to the contract stub below.  This is call replacement by contract done at link level. */
+#define VM_RELEASE_REQUIRES(heap, v) ((heap) != NULL && (!IS_RC(v) || (__CPROVER_rw_ok(HDR(v), sizeof(VmHeapHeader)) && HDR(v)->obj_type == (v).tag)))
+
+#ifdef VERIF_VM_RELEASE_STUB
+#undef vm_release
 void vm_release(VmHeap *heap, NanoValue v)
-__CPROVER_requires(heap != NULL)
-__CPROVER_requires(!IS_RC(v) || (__CPROVER_rw_ok(HDR(v), sizeof(VmHeapHeader)) && HDR(v)->obj_type == v.tag))
-__CPROVER_assigns(__verif_g; IS_RC(v): HDR(v)->ref_count)
-__CPROVER_frees(IS_RC(v): v.as.obj)
-__CPROVER_ensures(__verif_g.release_calls == __CPROVER_old(__verif_g.release_calls) + 1)
-__CPROVER_ensures((IS_RC(v) && __CPROVER_old(HDR(v)->ref_count) >= 2) ==>
-                  (!__CPROVER_was_freed(v.as.obj) && HDR(v)->ref_count == __CPROVER_old(HDR(v)->ref_count) - 1))
-__CPROVER_ensures((IS_RC(v) && __CPROVER_old(HDR(v)->ref_count) == 1) ==> __CPROVER_was_freed(v.as.obj))
-__CPROVER_ensures((IS_RC(v) && __CPROVER_old(HDR(v)->ref_count) == 0) ==>
-                  (!__CPROVER_was_freed(v.as.obj) && HDR(v)->ref_count == 0));
+{
+    __CPROVER_assert(heap != NULL, "vm_release.precondition heap valid");
+    if (!IS_RC(v)) return;
+    __CPROVER_assert(__CPROVER_rw_ok(HDR(v), sizeof(VmHeapHeader)), "vm_release.precondition value points to a live object header");
+    __CPROVER_assert(HDR(v)->obj_type == v.tag, "vm_release.precondition object type matches the value tag");
+    __verif_g.release_calls++;
+    uint32_t rc = HDR(v)->ref_count;
+    if (rc == 0) return;
+    if (rc >= 2) { HDR(v)->ref_count = rc - 1; return; }
+    HDR(v)->ref_count = 0;
+    free(v.as.obj);
+}
+#endif
 
 #endif
